@@ -131,9 +131,20 @@ func main() {
 	noEvidence := flag.Bool("no-evidence", false, "do not write the evidence file")
 	flag.Parse()
 
+	child := os.Getenv("CHAINMC_CHILD") != ""
 	if *replay != "" {
+		if !child && isCrashReplay(*replay) {
+			os.Exit(replayCrash(*replay))
+		}
 		os.Exit(doReplay(*replay))
 	}
+	if !child {
+		// the check itself runs in a child process, see journal.go
+		if _, ok := props[*prop]; ok {
+			os.Exit(supervise(*prop, *noEvidence))
+		}
+	}
+	journalOpen()
 	ps, ok := props[*prop]
 	if !ok {
 		fmt.Fprintf(os.Stderr, "chainmc: unknown property %q\n", *prop)
@@ -343,6 +354,15 @@ func main() {
 		}
 	}
 	os.Exit(exit)
+}
+
+func isCrashReplay(path string) bool {
+	raw, err := os.ReadFile(path)
+	if err != nil {
+		return false
+	}
+	var rf replayFile
+	return json.Unmarshal(raw, &rf) == nil && rf.Sig == "process-crash"
 }
 
 func doReplay(path string) int {
